@@ -14,12 +14,14 @@ alone (every written event carries a label of its own), never from a read.
                    rounded edges Bucket.get forwards).  The float query parameters of sqlite.py
                    are evaluated inside Coq (Model/WindowFloat.v, harness/floatcases.py) and handed
                    to the extracted model as the integers SQLite's exact comparison makes of them.
-  peewee         : SQLite's strftime/julianday end instant of every stored row is measured on the
-                   engine itself (with the code's own dt_plus_duration expression) and handed to the
-                   model as a table; given it the comparison is exact too.  The table is checked
-                   against the Section hypothesis |sql_end_ms - (ts+dur)| <= 1000 and the largest
-                   deviation goes into the evidence.  The relational statement (must <= got <= may,
-                   clipping exact) is the oracle below.
+  peewee         : SQLite's strftime/julianday end instant of every stored row comes from the MODEL
+                   of the engine's date arithmetic (Model/SqliteDate.v, evaluated inside Coq on the raw
+                   TEXT / DECIMAL cells of the row) and is handed to the extracted model as a table;
+                   the engine's own answer (the code's dt_plus_duration expression on the row) must be
+                   the same TEXT, character for character -- a difference is a broken tie
+                   (harness/c03_sqldate.py; also on a boundary corpus written through a real
+                   PeeweeStorage).  Props/C03Float.v proves the hypothesis sql_end_ok for that model.
+                   The relational statement (must <= got <= may, clipping exact) is the oracle below.
 """
 import multiprocessing
 import os
@@ -29,6 +31,7 @@ import tempfile
 
 from . import common
 from . import c03_hist as hist
+from . import c03_sqldate as sqd
 from . import floatcases as fc
 from . import store_hist as sh
 from .c03_hist import floor_ms, simple_script, window_queries
@@ -429,7 +432,7 @@ def main(argv=None):
     ck = Check("C03", argv)
     common.setup_impl_env()
     ck.run_witnesses(["w02", "w04", "w18"])
-    ck.prove(extra_targets=["Model/WindowFloat.v", "Bridge/BridgeWindow.v"],
+    ck.prove(extra_targets=["Model/WindowFloat.v", "Model/SqliteDate.v", "Bridge/BridgeWindow.v"],
              gen_kernels=["Bucket.get", "Bucket.get_eventcount", "MemoryStorage.get_events.filters",
                           "MemoryStorage.get_eventcount", "PeeweeStorage.get_events.trim",
                           "SqliteStorage.get_events.sql", "SqliteStorage.get_eventcount.sql"])
@@ -530,6 +533,64 @@ def main(argv=None):
         ck.broken.append(f"Section hypothesis sql_end_err violated on the engine: |sql_end_ms - (ts+dur)| = {max_sql_dev} "
                          f"at {sql_dev_at}")
 
+    # --- peewee: SQLite's date arithmetic.  Every stored row of every run and the boundary corpus, as the engine
+    #     holds and prints them, against Model/SqliteDate.v evaluated inside Coq; the end-instant table the extracted
+    #     model gets is then the MODEL's value, not the measured one
+    raws = [row for r in results for store in (r.get("peewee", {}).get("stores") or []) if store
+            for row in store.get("raw", [])]
+    n_stored = len(raws)
+    corpus = sqd.corpus(ck.rng, 600 if quick else 20000)
+    try:
+        corpus_raw = sqd.corpus_rows(corpus)
+    except Exception as ex:  # noqa: BLE001
+        corpus_raw = []
+        ck.broken.append(f"the boundary corpus of SQLite's date arithmetic could not be written through PeeweeStorage: "
+                         f"{type(ex).__name__}: {str(ex)[:300]}")
+    sqd_model, sqd_ok = {}, True
+    try:
+        sqd_model = sqd.model_rows(sorted({(row[2], row[3]) for row in raws + corpus_raw}, key=str))
+    except Exception as ex:  # noqa: BLE001
+        sqd_ok = False
+        ck.broken.append(f"in-Coq evaluation of Model/SqliteDate.v failed: {str(ex)[:300]}")
+    max_cell_dev, max_model_dev, model_dev_at, n_cell_inexact, n_sqd_bad, sqd_seen = 0, 0, None, 0, 0, set()
+    if sqd_ok:
+        for k, row in enumerate(raws + corpus_raw):
+            problem, cdev = sqd.compare(row, sqd_model)
+            max_cell_dev = max(max_cell_dev, cdev)
+            n_cell_inexact += sqd.cell_float(row[3]) != row[1] / 1e6
+            if problem and (row[2], row[3]) not in sqd_seen:
+                sqd_seen.add((row[2], row[3]))
+                n_sqd_bad += 1
+                if n_sqd_bad <= 3:
+                    ck.disagreement("sqldate", ("stored row" if k < n_stored else "corpus row") + ": " + problem,
+                                    {"row": row, "model": sqd_model.get((row[2], row[3])),
+                                     "how": "row = [ts_us, dur_us, timestamp TEXT cell, duration cell (int | float.hex()), "
+                                            "TEXT the engine gives for dt_plus_duration(timestamp, duration)]; model = "
+                                            "[iJD, printed instant us, TEXT] of Model/SqliteDate.v sd_row_case"})
+            elif not problem and row[1] <= DAY:
+                d = abs(sqd_model[(row[2], row[3])][1] - (row[0] + row[1]))
+                if d > max_model_dev:
+                    max_model_dev, model_dev_at = d, row
+        if max_cell_dev > sqd.Fraction(1, 64):
+            ck.broken.append(f"premise cell_near violated: a duration cell is {float(max_cell_dev)} us away from the duration")
+        if max_model_dev > 562:
+            ck.broken.append(f"theorem C03_sql_end_model_bound contradicted by evaluation: {max_model_dev} us at {model_dev_at}")
+        # the table of the extracted model: the model's end instant of every stored row
+        for r in results:
+            for store in (r.get("peewee", {}).get("stores") or []):
+                if store:
+                    store["table"] = [[row[0], row[1], sqd_model[(row[2], row[3])][1]] for row in store.get("raw", [])
+                                      if sqd_model[(row[2], row[3])][1] is not None]
+    ck.count("sqldate:stored-rows", n_stored)
+    ck.count("sqldate:corpus-rows", len(corpus_raw))
+    ck.coverage["sqlite_date_model"] = {
+        "what": "Model/SqliteDate.v evaluated inside Coq on the raw cells of every stored peewee row and of the boundary "
+                "corpus, compared with the TEXT the engine gives for the code's dt_plus_duration expression",
+        "stored_rows": n_stored, "corpus_rows": len(corpus_raw), "distinct_rows_evaluated": len(sqd_model),
+        "differences": n_sqd_bad, "largest_model_deviation_us": max_model_dev, "at": model_dev_at,
+        "proved_bound_us": 562, "largest_cell_deviation_us": float(max_cell_dev),
+        "rows_whose_cell_is_not_the_written_float": n_cell_inexact}
+
     # --- correspondence with the model
     if have_driver:
         # float parameters of the sqlite queries, evaluated inside Coq
@@ -615,8 +676,14 @@ def main(argv=None):
         "statement": "|sql_end_ms ts dur - (ts + dur)| <= 1000 for stored rows with 0 <= dur <= 24 h",
         "rows_measured": n_rows, "largest_deviation_us": max_sql_dev, "at": sql_dev_at}
     ck.assumptions += [
-        "Section hypothesis sql_end_err (SQLite's julianday/strftime arithmetic, peewee): measured on the engine for every "
-        "stored row of every case, see coverage.sql_end_hypothesis",
+        "premise sql_end_ok (SQLite's julianday/strftime arithmetic, peewee): proved for the engine MODEL "
+        "(Model/SqliteDate.v, Props/C03Float.v: C03_sql_end_ok, 562 us); the engine itself is not verified: the model is "
+        "compared with its TEXT output bit for bit on every stored row and on a boundary corpus "
+        "(coverage.sqlite_date_model); printf's %06.3f is modelled by its outcome (round half up to 3 decimals), "
+        "the text -> iJD and iJD -> text calendar steps enter the theorem as the exact integer arithmetic they implement "
+        "(compared on every row)",
+        "premise cells_ok (the duration cell is a double within 1/64 us of the duration): proved for the float the code "
+        "writes (ex_cells_ok), checked on every raw row (coverage.sqlite_date_model.largest_cell_deviation_us)",
         "premise float_param_ok (sqlite float window parameters within 1 us of the instant for 0 <= t < 2^52): discharged "
         "for the code's own expression in Props/C03Float.v (Proofs/CodecWindow.sq_param_within_1us, Flocq); independently "
         "the parameters are evaluated bit-exactly inside Coq (Model/WindowFloat.v) for every query and fed to the model",
